@@ -205,6 +205,26 @@ CLAIMS = {
                      "shared structures (ToString of a DAG) is outside the evaluation.",
         "technique": "Lean 4 theorems on the VM/dice model (loop guard, per-round charging by induction over rounds) + metered accounting oracle + differential NumOpCount stream",
     },
+    "C16": {
+        "text": "gate_sound (DS/Proofs/PegGate.lean) is proved on the model of the generated PEG engine — ordered choice, position-only "
+                "backtracking, skip-code look-ahead, two packrat tables whose hits replay results without re-running actions — for ANY "
+                "grammar, action table, input and fuel: if the static check accepts the rules enterable while a flag is blocked then, "
+                "unless a flagsSwitch macro action has run, the flag (and every saved copy on the flags stack) stays blocked, no gated "
+                "opcode is ever written, abandoned alternatives included, and nothing that cannot succeed while blocked is memoised as "
+                "succeeded. It is instantiated by kernel evaluation (decide +kernel, no native_decide) on the grammar, action digests and "
+                "opcode numbers the translator regenerates from roll.peg.go / parser.go / bytecode.go on every run: CoC, WoD, Fate, Double "
+                "Cross (Enable* off) and statements (DisableStmts on: no block.push, function definition or return). Tie: peg stream — "
+                "model and real parser agree on success, consumed offset and the full emission trace (hook) over letter/number mixes "
+                "around a b c f p d, st lists, generated and mutated programs x all flag subsets. Oracle on the implementation: a gated "
+                "opcode is written only with the flag or the macro text; a macro never changes the VM's configuration and does not "
+                "affect the next evaluation.",
+        "note": TB + "The translator (grammar literal, action digests) is trusted and validated by the emission traces; ParserData "
+                     "methods the engine implements by name (flags stack, loop bookkeeping) are fingerprinted — a changed body is "
+                     "reported as a broken tie and widens the search. That a VM rolls a family only by executing its opcodes, and "
+                     "that code reaches a VM only through Parse or a stored body, is read off rollvm.go, not proved; stored bodies "
+                     "compiled under a macro are the known finding C09-body-compiled-under-macro. Custom dice parsers are C17's subject.",
+        "technique": "Lean 4 engine-generic theorem on a PEG-engine model + kernel-evaluated static check on the regenerated grammar + emission-trace differential stream",
+    },
 }
 
 NOT_YET = {}
